@@ -322,6 +322,7 @@ Definition val_op (v : val) : option (op str) :=
       else if str_eqb t (lit "setdefault") then Some (OSetDefault k x)
       else if str_eqb t (lit "update_kw") then Some (OUpdate [(k, x)])
       else if str_eqb t (lit "popdefault") then Some (OPopDefault k x)
+      else if str_eqb t (lit "getdefault") then Some (OGetDefault k x)
       else None
   | VList [VStr t; VList l] =>
       if str_eqb t (lit "update_pairs") then Some (OUpdate (val_pairs l))
